@@ -78,7 +78,7 @@ def meta_items(kind, sites, ns, stream="ap", encoding="shank", fs=None, gains=No
     t = "~" if tilde else ""
     aplf = "%d,0,%d" % (nch, nsync) if stream == "ap" else "0,%d,%d" % (nch, nsync)
     items = [
-        ("acqApLfSy", "384,384,1" if fam != "NP2" else "384,0,1"),
+        ("acqApLfSy", "%d,%d,%d" % (nch, nch if fam != "NP2" else 0, nsync)),
         ("appVersion", "20230905" if encoding == "geom" else "20201103"),
         ("fileCreateTime", "2021-08-02T14:30:26"),
         ("fileName", "D:/data/verif/_spikeglx_ephysData_g0_t0.imec0.%s.bin" % stream),
